@@ -496,7 +496,8 @@ func (n *mnode) expTime() string {
 		layout = slog.TimeNano
 	}
 	t := c10ts
-	if n.utc == 2 { // default flags carry LlocalTime, so "unset" means the instant's own zone
+	// "unset" follows the LlocalTime flag (which some cases clear); an explicit mode is the logger's own
+	if n.utc == 2 || (n.utc == 0 && !slog.IsAnyBitsSet(slog.LlocalTime)) {
 		t = t.UTC()
 	}
 	return t.Format(layout)
@@ -639,6 +640,12 @@ func c10tree(c *Ctx) {
 	c.Each(func(idx int, r *gen.R) {
 		e := &c10env{log: log, pool: pool, fds: fds, r: r}
 		is.SetDebugMode(false)
+		// the LlocalTime flag is cleared in a third of the cases: a zone mode set on a logger is that logger's own
+		if r.P(33) {
+			slog.RemoveFlags(slog.LlocalTime)
+			defer slog.AddFlags(slog.LlocalTime)
+			c.R.Add("cases_with_LlocalTime_cleared", 1)
+		}
 		// roots: two detached loggers and a fresh default logger
 		pkgLevel := slog.GetLevel()
 		r1name := "r1"
@@ -888,6 +895,22 @@ func c10defaultLevel(c *Ctx) {
 				if !check("after-SetDefault(New().SetLevel("+x.String()+"))", cur) {
 					return
 				}
+			}
+			if r.P(40) {
+				// some logger somewhere gets the Debug level (which switches the process-wide debug mode on): the package
+				// default level is not that logger's business
+				cur := slog.GetLevel()
+				tmp := slog.New("debugged" + x.String())
+				if r.Bool() {
+					tmp.SetLevel(slog.DebugLevel)
+				} else {
+					_ = tmp.WithLevel(slog.DebugLevel)
+				}
+				hist = append(hist, "some logger set to Debug")
+				if !check("after-some-logger-was-set-to-Debug", cur) {
+					return
+				}
+				is.SetDebugMode(false)
 			}
 			slog.SetLevel(x)
 			hist = append(hist, x.String())
